@@ -48,6 +48,16 @@ def asm_controls():
     expect("Tr_Asm accepts the recorded assembly", clauses(verd[0]) == [], str(verd[0]["items"])[:200])
     for k, want in ((1, "enc"), (2, "enc"), (3, "placed"), (4, "symtab"), (5, "image"), (6, "enc")):
         expect("Tr_Asm rejects corruption %d with clause %s" % (k, want), want in clauses(verd[k]), str(clauses(verd[k])))
+    # free text: an indexed encoding on a register the operand text never names (what the assembler emitted for LDA ,PCR before it was repaired)
+    from harness.props import c12
+    rc = c12.raw_case("LDA", "5,Y", "raw")
+    rtr, _x = asmrun.run([(0, rc.prog, rc.lines)])
+    r0 = dict(rtr[0], focus=3)
+    r1 = copy.deepcopy(dict(r0, id=1))
+    r1["prog"][2]["optcodes"] = [ord(ch) for ch in "5,PCR"]             # the same bytes (A6 25 = 5,Y) for a text that never mentions Y
+    rv, _ = tlc.bulk("Tr_Asm", [r0, r1], nproc=1)
+    expect("Tr_Asm accepts the recorded free-text statement", "names" not in clauses(rv[0]), str(clauses(rv[0])))
+    expect("Tr_Asm rejects a base register the text never names (names)", "names" in clauses(rv[1]), str(clauses(rv[1])))
     # pass structure
     evs = []
     for e in extras[0]["hooks"]:
